@@ -209,7 +209,7 @@ def check_handles(ctx):
                   (f"{q}: the qubit handle from `{site}` is still active at {l.exit_desc} and is neither returned towards the caller nor deactivated: "
                    f"its virtual ID stays reserved (or, for a FutureQubit, the next Qubit(conn) fails because the active list holds a non-constant id)") if l else "",
                   repo.loc(m, node), sample={"unit": q, "handle": site, "returned_or_deactivated": l is None})
-    ctx.anchor("C09.L", "handle creation / hand-over sites", n, 8)
+    ctx.anchor("C09.L", "handle creation / hand-over sites", n, 5)  # (creation sites moved into helper classes are followed by the histories of C09.H, not by this engine)
     for q, sm in sorted(an.summaries.items()):
         if sm.returns_owned or sm.releases_params:
             ctx.note(f"handle summary {q}: returns={ {k: v for k, v in sm.returns_owned.items()} } deactivates_params={sorted(sm.releases_params)}")
@@ -445,12 +445,12 @@ def _run_history(ctx, job):
     from .. import session as S
     (hardware, qubits, nv_compiler), seq = job
     setting = f"{hardware} hardware, {qubits} qubits" + (", NV transpiler" if nv_compiler else "")
-    w = S.HostWorld(ctx, hardware, qubits, nv_compiler, epr=any(o_[0] in ("create", "recv") for o_ in seq))
+    w = S.HostWorld(ctx, hardware, qubits, nv_compiler, epr=any(o_[0] in ("create", "recv", "py") for o_ in seq))
     handles = []
     done = []
 
     def tell():
-        return f"[{setting}] " + ", ".join(o_[0] + (f"({o_[1]})" if len(o_) > 1 else "") for o_ in done)
+        return f"[{setting}] " + ", ".join((o_[0] + (f"({o_[1]})" if len(o_) > 1 else "")) if o_[0] != "py" else "`" + o_[1].strip().replace("\n", "; ") + "`" for o_ in done)
 
     def after_flush():
         for cls_name, r_ in w.deliver():
@@ -469,6 +469,14 @@ def _run_history(ctx, job):
             r_ = w.new_qubit()
             if r_[0] == "ok":
                 handles.append(r_[1])
+        elif op[0] == "py":
+            # a piece of host program as text, run by the interpreter with `conn`, `epr_socket` and the live handles `q0`, `q1`, ... bound
+            env = {"conn": w.conn, "epr_socket": w.epr_socket}
+            env.update({f"q{i_}": h_ for i_, h_ in enumerate(handles)})
+            for k_ in range(op[2]):
+                w.expect_remote_pairs(1)
+            mod_ = ctx.repo.module("netqasm.sdk.epr_socket")
+            r_ = S.outcome(w.I.block, ast.parse(op[1]).body, env, mod_)
         elif op[0] in ("create", "recv"):
             if op[0] == "recv":
                 w.expect_remote_pairs(op[1])
@@ -520,6 +528,23 @@ def check_histories(ctx, rule="C09.H", thorough=False):
     for cfg in (("generic", 3, False), ("nv", 3, False), ("nv", 3, True)):
         for seq in epr_family:
             jobs.append((cfg, seq))
+    # handles the SDK creates itself: per-pair contexts and post routines (sequential and not), the handle used inside and left behind
+    CTX = "with epr_socket.create_context(number={n}, sequential={seq}) as (q, pair):\n    q.H()\n    m = q.measure()\n"
+    CTX_KEEP = "with epr_socket.create_context(number={n}, sequential={seq}) as (q, pair):\n    q.H()\n"
+    # (a post routine that measures its pair leaves the handles create_keep returns behind as second handles of qubits that are gone -
+    # what those mean is not specified; the routines here apply a gate and the returned handles are measured afterwards)
+    POST = "def post(conn, q, pair):\n    q.H()\nqs = epr_socket.create_keep(number={n}, post_routine=post)\nfor q in qs:\n    q.measure()\n"
+    RECV_POST = "def post(conn, q, pair):\n    q.X()\nqs = epr_socket.recv_keep(number={n}, post_routine=post)\nqs[0].measure()\n"
+    for cfg in (("generic", 3, False), ("nv", 3, True)):
+        for n_ in (1, 2):
+            for seq_ in (True, False):
+                if cfg[0] == "nv" and n_ == 2 and not seq_:
+                    continue  # (two pairs requested at once on one communication qubit: what the base executor does while the second waits is not modelled)
+                jobs.append((cfg, (("py", CTX.format(n=n_, seq=seq_), 0), ("new",), ("meas", 0))))
+            if not (cfg[0] == "nv" and n_ == 2):
+                jobs.append((cfg, (("py", POST.format(n=n_), 0), ("new",), ("flush",), ("meas", 0))))
+        jobs.append((cfg, (("py", RECV_POST.format(n=1), 1), ("new",), ("meas", 0))))
+        jobs.append((cfg, (("new",), ("py", CTX.format(n=2, seq=True), 0), ("meas", 0))))
     # pairs delivered while the live ids have a hole (a handle with a lower id was freed)
     for cfg in (("generic", 3, False), ("generic", 4, False)):
         jobs.append((cfg, (("new",), ("new",), ("free", 0), ("create", 2))))
